@@ -29,6 +29,8 @@ import GlmVerif.Props.C08.T_ortho2d
 import GlmVerif.Props.C08.T_project
 import GlmVerif.Props.C08.T_project_cfg
 import GlmVerif.Props.C08.T_unprojP
+import GlmVerif.Props.C08.T_tweaked
+import GlmVerif.Props.C08.T_pickMatrix
 /-! every family table of C08 holds for the model generated from the current /repo -/
 namespace Glm.Props.C08
 open Glm Glm.Spec.C08 Glm.Gen.C08
@@ -63,5 +65,7 @@ theorem all_ok : ∀ f ∈ families, f.ok lookup = true := by
     (Family.ok_congr f_ortho2d (fun ks => by rw [show f_ortho2d.unit = "ortho2d" from rfl, lookup_ortho2d])).trans ortho2d_ok,
     (Family.ok_congr f_project (fun ks => by rw [show f_project.unit = "project" from rfl, lookup_project])).trans project_ok,
     (Family.ok_congr f_project_cfg (fun ks => by rw [show f_project_cfg.unit = "project_cfg" from rfl, lookup_project_cfg])).trans project_cfg_ok,
-    (Family.ok_congr f_unprojP (fun ks => by rw [show f_unprojP.unit = "unprojP" from rfl, lookup_unprojP])).trans unprojP_ok⟩
+    (Family.ok_congr f_unprojP (fun ks => by rw [show f_unprojP.unit = "unprojP" from rfl, lookup_unprojP])).trans unprojP_ok,
+    (Family.ok_congr f_tweaked (fun ks => by rw [show f_tweaked.unit = "tweaked" from rfl, lookup_tweaked])).trans tweaked_ok,
+    (Family.ok_congr f_pickMatrix (fun ks => by rw [show f_pickMatrix.unit = "pickMatrix" from rfl, lookup_pickMatrix])).trans pickMatrix_ok⟩
 end Glm.Props.C08
